@@ -17,6 +17,7 @@ CLAIMS = {
 }
 SES = 'TLA+ specifications spec/Ini.tla (INI reader automaton, section/name resolution, application, writer) and spec/ArgParse.tla, TLC'
 CLAIMS.update({
+    'C18': ('5.18', 'TLA+ specifications spec/Completion.tla (the completion walk as the code does it, and the candidates derived from the parser context of spec/ArgParse.tla), TLC', 'invariants WalkAgreesWithParser (the separately implemented completion walk and the parser reach the same context and candidate list on every valid prefix), OfferedIsAccepted (every offered option / command name is accepted by the specification of the parser at that position) and Sorted of MC_Completion, exhaustively over typed words up to the bound and a set of partial words; every case and seeded random (declaration, valid prefix cut at a random point, partial word) scenarios are run through the real completion (GO_FLAGS_COMPLETION + CompletionHandler); TLC compares the offered items with the declarative candidate list and checks what the real parser answers to every offered name'),
     'C11': ('5.11', 'TLA+ specification spec/Conv.tla (digit-sequence integer grammar per base and bit size, booleans, key:value, literal tables for floats and durations, choices) inside spec/ArgParse.tla, TLC', 'invariants NativeAgree / RenderInverse of MC_Conv cross-check the digit-sequence arithmetic against native integers on the 8/16-bit types for all numerals up to the bound in bases 2, 8, 10, 16, 36; a boundary alphabet per (type, base) - limits and limits+-1 in the base, signs, leading zeros, blanks, underscores, prefixes, exponents, non-ASCII digits, float / duration / bool literals, choices and near misses - is sent through scalar, slice, map, pointer, slice-of-pointer, callback and positional on 57 conversion declarations and replayed on the real code; TLC compares acceptance, the stored value, the error type, the option named and the listed choices'),
     'C05': ('5.5', SES, 'invariant Precedence of MC_Sources (operational Set/setDefault/clearDefault/IniParser.parse protocol against the declarative ranking cli > ini > ini-as-defaults > env > default > preset, replace-never-extend) exhaustively over every subset of sources for every option of the sources declaration; every enumerated history replayed as real API calls; random histories (INI reads in both modes before/after ParseArgs, environment, defaults, presets) validated call by call against the specification'),
     'C12': ('5.12', SES, 'invariant TripInvariant of MC_Ini (Read(Write(values)) = values on the specification for a value alphabet of blanks, quotes, control, non-ASCII and invalid bytes, numeric limits, slices, maps, pointers, all eight IniOptions); every enumerated case and seeded random declarations with preset values are round-tripped on the real code (parser A: presets, parse, write; parser B: read, parse) and TLC compares the values'),
